@@ -232,6 +232,11 @@ func renderTicker(t string) string {
 	if t == "num" {
 		return "2"
 	}
+	if strings.HasPrefix(t, "esc:") && len(t) > 6 {
+		// the same ticker text spelled with a JSON escape: decodes to a known ticker, is not the canonical form
+		x := t[4:]
+		return `"` + x[:1] + fmt.Sprintf("\\u%04x", x[1]) + x[2:] + `"`
+	}
 	return `"` + t + `"`
 }
 
